@@ -128,10 +128,12 @@ package tree
 //@   trusted
 //@   requires t != nil
 //@   ensures plainErr(result)
-//@   modifies rootHas(t), rootHash(t), rootBlock(t), rootPos(t), stmtFail
+//@   modifies rootHas(t), rootHash(t), rootBlock(t), rootPos(t), rootLastIdx(t), stmtFail
 //@   ensures stmtFail == old(stmtFail) + ite(result == nil, 0, 1)
 //@   ensures result == nil ==> rootHas(t) == upd(old(rootHas(t)), root.Index, true) && rootHash(t) == upd(old(rootHash(t)), root.Index, root.Hash) && rootBlock(t) == upd(old(rootBlock(t)), root.Index, root.BlockNum) && rootPos(t) == upd(old(rootPos(t)), root.Index, root.BlockPosition)
-//@   ensures result != nil ==> rootHas(t) == old(rootHas(t)) && rootHash(t) == old(rootHash(t)) && rootBlock(t) == old(rootBlock(t)) && rootPos(t) == old(rootPos(t))
+//@   ensures result != nil ==> rootHas(t) == old(rootHas(t)) && rootHash(t) == old(rootHash(t)) && rootBlock(t) == old(rootBlock(t)) && rootPos(t) == old(rootPos(t)) && rootLastIdx(t) == old(rootLastIdx(t))
+// which row the ORDER BY block_num, block_position of getLastRootWithTx ranks last afterwards: the old one or the new one
+//@   ensures result == nil ==> rootLastIdx(t) == old(rootLastIdx(t)) || rootLastIdx(t) == root.Index
 
 // The INSERT into the rht table (hash is its PRIMARY KEY, tree/migrations/tree0001.sql) as seen from storeNodes:
 // SQL semantics assumed (A5) for this call site. A row is added iff the statement succeeds; a primary-key conflict
@@ -172,6 +174,14 @@ package tree
 //@   ensures (result1 != nil && isErr(result1, db.ErrNotFound)) ==> rootLastIdx(t) == -1
 //@   ensures plainErr(result1)
 //@   ensures result1 == nil ==> rootLastIdx(t) >= 0 && result0.Index == rootLastIdx(t) && rootHas(t)[result0.Index] && result0.Hash == rootHash(t)[result0.Index]
+
+//@ func (t *Tree) GetLastRoot
+//@   props C07 C11 C14
+//@   requires t != nil
+//@   modifies nothing
+//@   ensures[not-found-means-no-root] (result1 != nil && isErr(result1, db.ErrNotFound)) ==> rootLastIdx(t) == -1
+//@   ensures[never-the-syncers-inconsistency-error] plainErr(result1)
+//@   ensures[the-row-ranked-last] result1 == nil ==> rootLastIdx(t) >= 0 && result0.Index == rootLastIdx(t) && rootHas(t)[result0.Index] && result0.Hash == rootHash(t)[result0.Index]
 
 // getRoot() of the deposit contract for size = idx+1, written over the bits of idx (bit h of idx+1 is bitSucc(idx, h))
 //@ spec fn solRootI(branch []Hash, idx uint32, h int) Hash = ite(h <= 0, ZeroHash, ite(bitSucc(idx, h-1), H(branch[h-1], solRootI(branch, idx, h-1)), H(solRootI(branch, idx, h-1), zeroAt(h-1))))
@@ -214,7 +224,7 @@ package tree
 //@   requires forall(h, 0, 32, bitAt(leaf.Index, h) ==> t.lastLeftCache[h] == solBranch(t)[h])
 //@   requires undoCnt(tx) == solCount(t) - txCount(t)
 //@   requires rollbackIndex(t.lastIndex, undoCnt(tx)) == -2 || (rollbackIndex(t.lastIndex, undoCnt(tx)) + 1 == txCount(t) && forall(h, 0, 32, bitAt(uint32(txCount(t)), h) ==> t.lastLeftCache[h] == txBranch(t)[h]))
-//@   modifies t.lastIndex, t.lastLeftCache, solBranch(t), solCount(t), rootHas(t.Tree), rootHash(t.Tree), rootBlock(t.Tree), rootPos(t.Tree), rhtHas(t.Tree), rhtL(t.Tree), rhtR(t.Tree), undoCnt(tx), leafCalls, lastLeafErr, lastLeafIdx, stmtFail
+//@   modifies t.lastIndex, t.lastLeftCache, solBranch(t), solCount(t), rootHas(t.Tree), rootHash(t.Tree), rootBlock(t.Tree), rootPos(t.Tree), rootLastIdx(t.Tree), rhtHas(t.Tree), rhtL(t.Tree), rhtR(t.Tree), undoCnt(tx), leafCalls, lastLeafErr, lastLeafIdx, stmtFail
 //@   set leafCalls := old(leafCalls) + 1
 //@   set lastLeafErr := result
 //@   set lastLeafIdx := leaf.Index
@@ -230,6 +240,7 @@ package tree
 //@   ensures[coupled] result == nil ==> t.lastIndex + 1 == solCount(t) && forall(h, 0, 32, bitSucc(leaf.Index, h) ==> t.lastLeftCache[h] == solBranch(t)[h])
 //@   ensures[failure-keeps-frontier] result != nil ==> solCount(t) == old(solCount(t)) && solBranch(t) == old(solBranch(t)) && t.lastIndex == old(t.lastIndex) && forall(h, 0, 32, bitAt(leaf.Index, h) ==> t.lastLeftCache[h] == solBranch(t)[h])
 //@   ensures[callback-registered] undoCnt(tx) == old(undoCnt(tx)) + ite(result == nil, 1, 0)
+//@   ensures[last-root-moves-only-to-the-new-leaf] rootLastIdx(t.Tree) == old(rootLastIdx(t.Tree)) || rootLastIdx(t.Tree) == leaf.Index
 //@   ensures[rollback-safe] rollbackIndex(t.lastIndex, undoCnt(tx)) == -2 || (rollbackIndex(t.lastIndex, undoCnt(tx)) + 1 == txCount(t) && forall(h, 0, 32, bitAt(uint32(txCount(t)), h) ==> t.lastLeftCache[h] == txBranch(t)[h]))
 //@   loop 0 unroll 32
 // stepping stones checked and then assumed at the head of every unrolled iteration (h is a literal there)
@@ -253,7 +264,7 @@ package tree
 //@   props C07 C08 C14
 //@   requires t != nil && t.Tree != nil && tx != nil && len(t.zeroHashes) == 33
 //@   requires rhtOK(rhtHas(t.Tree), rhtL(t.Tree), rhtR(t.Tree))
-//@   modifies t.lastIndex, t.lastLeftCache, solBranch(t), solCount(t), rootHas(t.Tree), rootHash(t.Tree), rootBlock(t.Tree), rootPos(t.Tree), rhtHas(t.Tree), rhtL(t.Tree), rhtR(t.Tree), undoCnt(tx), leafCalls, lastLeafErr, lastLeafIdx, stmtFail
+//@   modifies t.lastIndex, t.lastLeftCache, solBranch(t), solCount(t), rootHas(t.Tree), rootHash(t.Tree), rootBlock(t.Tree), rootPos(t.Tree), rootLastIdx(t.Tree), rhtHas(t.Tree), rhtL(t.Tree), rhtR(t.Tree), undoCnt(tx), leafCalls, lastLeafErr, lastLeafIdx, stmtFail
 //@   set leafCalls := old(leafCalls) + 1
 //@   set lastLeafErr := result
 //@   set lastLeafIdx := leaf.Index
@@ -264,8 +275,9 @@ package tree
 //@   ensures[callback-iff-success] undoCnt(tx) == old(undoCnt(tx)) + ite(result == nil, 1, 0)
 // a leaf is only ever appended at the position after the last one - the one the in-memory index names or, when that
 // does not match, the one after the last stored root (the frontier is rebuilt first); any other position is refused
-//@   ensures[appended-only-at-the-next-position] result == nil ==> t.lastIndex == leaf.Index && (leaf.Index == old(t.lastIndex) + 1 || leaf.Index == rootLastIdx(t.Tree) + 1)
-//@   ensures[other-positions-are-an-invalid-index] (leaf.Index != old(t.lastIndex) + 1 && leaf.Index != rootLastIdx(t.Tree) + 1) ==> result != nil
+//@   ensures[appended-only-at-the-next-position] result == nil ==> t.lastIndex == leaf.Index && (leaf.Index == old(t.lastIndex) + 1 || leaf.Index == old(rootLastIdx(t.Tree)) + 1)
+//@   ensures[other-positions-are-an-invalid-index] (leaf.Index != old(t.lastIndex) + 1 && leaf.Index != old(rootLastIdx(t.Tree)) + 1) ==> result != nil
+//@   ensures[last-root-moves-only-to-the-new-leaf] rootLastIdx(t.Tree) == old(rootLastIdx(t.Tree)) || rootLastIdx(t.Tree) == leaf.Index
 //@   ensures[root-row-iff-success] result != nil ==> rootHas(t.Tree) == old(rootHas(t.Tree)) || rootHas(t.Tree) == upd(old(rootHas(t.Tree)), leaf.Index, true)
 //@   loop 0 unroll 32
 
@@ -278,7 +290,7 @@ package tree
 //@   props C11 C07
 //@   requires t != nil && t.Tree != nil && tx != nil && len(t.zeroHashes) == 33
 //@   requires rhtOK(rhtHas(t.Tree), rhtL(t.Tree), rhtR(t.Tree))
-//@   modifies rootHas(t.Tree), rootHash(t.Tree), rootBlock(t.Tree), rootPos(t.Tree), rhtHas(t.Tree), rhtL(t.Tree), rhtR(t.Tree), leafNow(t), stmtFail, upsertCalls
+//@   modifies rootHas(t.Tree), rootHash(t.Tree), rootBlock(t.Tree), rootPos(t.Tree), rootLastIdx(t.Tree), rhtHas(t.Tree), rhtL(t.Tree), rhtR(t.Tree), leafNow(t), stmtFail, upsertCalls
 //@   set upsertCalls := old(upsertCalls) + 1
 //@   set leafNow(t) := ite(result1 == nil, upd(old(leafNow(t)), leaf.Index, leaf.Hash), old(leafNow(t)))
 //@   ensures[success-means-stored] result1 == nil ==> stmtFail == old(stmtFail)
@@ -296,7 +308,7 @@ package tree
 // (left-over nodes are harmless: storeNodes tolerates them and lookups start from a stored root).
 //@ interface github.com/agglayer/aggkit/db/types.Txer.Exec@tree.(*Tree).Reorg (self, query, args)
 //@   requires self != nil
-//@   modifies rootHas(caller.t), stmtFail
+//@   modifies rootHas(caller.t), rootLastIdx(caller.t), stmtFail
 //@   ensures stmtFail == old(stmtFail) + ite(result1 == nil, 0, 1)
 //@   ensures result1 == nil ==> forall(i, int, rootHas(caller.t)[i] == (old(rootHas(caller.t))[i] && rootBlock(caller.t)[i] < caller.firstReorgedBlock))
 //@   ensures result1 != nil ==> rootHas(caller.t) == old(rootHas(caller.t))
@@ -305,7 +317,7 @@ package tree
 //@   props C04
 //@   sqltext "DELETE FROM %s WHERE block_num >= $1"
 //@   requires t != nil && tx != nil
-//@   modifies rootHas(t), stmtFail
+//@   modifies rootHas(t), rootLastIdx(t), stmtFail
 //@   ensures[fault-counted] stmtFail == old(stmtFail) + ite(result == nil, 0, 1)
 //@   ensures[roots-from-that-block-on-dropped] result == nil ==> forall(i, int, rootHas(t)[i] == (old(rootHas(t))[i] && rootBlock(t)[i] < firstReorgedBlock))
 //@   ensures[failure-changes-nothing] result != nil ==> rootHas(t) == old(rootHas(t))
